@@ -34,10 +34,12 @@ LEVEL_TEXT = ("Exploration: thousands of round trips over generated trees (all s
               " A second tree of the same text length is written to the same path right after a read and read again."
               " Generated trees come in several representations of the same values (strided, other dtypes / lists, one array as two columns, read-only where the harness never writes) and half of them were queried, a third put through aborted operations, before use. A rejected read (extra columns the text lacks) precedes some round trips."
               " Trees that were read back are saved again; node counts on / next to powers of two and block sizes (255 .. 8193) and one big branched tree."
-              " Paths spelled as str / Path / bytes / relative.")
+              " Paths spelled as str / Path / bytes / relative."
+              " One case in four also goes through the extended format (to_eswc / from_eswc as text and as a file, five integer columns and one of the caller's own, the caller's list of column names re-used between calls).")
 LEVEL_NOTE = ("Trusts decimal.Decimal for the rounding reference and Python's float parser; comments "
               "are single-line and never start with the column banner (the reader documents "
-              "dropping that line).")
+              "dropping that line). Tree.from_eswc keeps only the seven standard columns; the extended "
+              "ones are compared through the table-level reader (the statement does not speak of them).")
 RULE = ("cases = (tree recipe, value class, write history of 1-4 writes each with id_offset, source "
         "kind, source/comments header options, comment set); non-trivial when the tree has >= 2 "
         "nodes; distinct = distinct (recipe, value class, history)")
@@ -49,6 +51,7 @@ REQUIRED = ["roundtrips", "src_text", "src_bytes", "src_path", "offset_0", "offs
             "rounding_tie_values", "comments_compared", "audit_file_opens", "rewrites_same_object",
             "trees_with_int64_ids", "same_path_rewritten_then_read",
             "rejected_reads_before_roundtrip", "loaded_trees_saved_again", "size_sweep_cases", "src_path_other_spellings",
+            "eswc_roundtrips",
             "tap_to_swc", "tap_parse_swc", "tap_reset_index_"]
 FLOOR = {"quick": 500, "thorough": 40000}
 SHARDS = {"quick": 8, "thorough": 16}
@@ -104,6 +107,74 @@ def apply_value_class(spec, vclass, seed):
     elif vclass == "alltypes":
         spec["type"] = rng.choice([0, 1, 2, 3, 4, 5, 6, 7, 9, 123], n).astype(np.int32)
     return spec
+
+
+ESWC = ["level", "mode", "timestamp", "teraflyindex", "feature_value"]
+
+
+def _eswc_step(ctx, case, tmp, spec, tree, comments):
+    """The extended format: the same round trip through to_eswc / from_eswc (five integer columns
+    per node, plus a column of the caller's own), as text and as a file, the caller's list of
+    extra column names re-used between the calls as a caller would hold it."""
+    from swcgeom.core import Tree
+
+    n = len(spec["pid"])
+    rng = np.random.default_rng(case["vseed"] + 17)
+    ext = {k: rng.integers(-5, 1000, n).astype(np.int32) for k in ESWC}
+    mine = (rng.integers(-40000, 40000, n) * 1e-4 + 5e-5).astype(np.float32)
+    cols = {k: tree.ndata[k].copy() for k in ("id", "type", "x", "y", "z", "r", "pid")}
+    te = Tree(n, **cols, **ext, weight=mine, comments=list(comments), source=tree.source)
+    own = ["weight"]
+    for kind in ("text", "path"):
+        what = f"eswc round trip ({kind})"
+        if kind == "text":
+            text = te.to_eswc(extra_cols=own)
+            if not isinstance(text, str):
+                return ctx.violation("write-api", f"{what}: to_eswc() returned {type(text)}", case)
+            t2 = Tree.from_eswc(io.StringIO(text), extra_cols=own)
+        else:
+            fname = os.path.join(tmp, "ext.eswc")
+            r = te.to_eswc(fname, extra_cols=own)
+            if r is not None or not os.path.isfile(fname):
+                return ctx.violation("write-api", f"{what}: to_eswc(fname) returned "
+                                                  f"{type(r).__name__} and "
+                                                  f"{'wrote' if os.path.isfile(fname) else 'did not write'}"
+                                                  f" the file", case)
+            t2 = Tree.from_eswc(fname, extra_cols=own)
+        ctx.count("eswc_roundtrips")
+        if own != ["weight"]:
+            return ctx.violation("caller-list-mutated", f"{what}: the caller's extra_cols list became "
+                                                        f"{own!r}", case)
+        if len(t2) != n or not np.array_equal(t2.pid(), spec["pid"]) or \
+                not np.array_equal(t2.type(), spec["type"]):
+            return ctx.violation("eswc-topology", f"{what}: node count / parents / types changed", case)
+        for k in "xyzr":
+            if not np.array_equal(t2.ndata[k], ref_round(spec[k])):
+                return ctx.violation("value-rounding", f"{what}: column {k} is not the 4-decimal "
+                                                       f"rounding of the original", case)
+        # the table-level reader returns the extended columns (Tree.from_eswc itself keeps only the
+        # seven standard ones: the statement does not speak of them, counted, not decided)
+        from swcgeom.core import swc_utils as su
+
+        src = io.StringIO(text) if kind == "text" else fname
+        df, _ = su.read_swc(src, extra_cols=own + ESWC)
+        if any(k not in t2.ndata for k in ESWC):
+            ctx.count("tree_reader_drops_extended_columns")
+        for k in ESWC:
+            if k not in df.columns or not np.array_equal(df[k].to_numpy().astype(np.float64),
+                                                         ext[k].astype(np.float64)):
+                return ctx.violation("eswc-column", f"{what}: extended column {k!r} read back as "
+                                                    f"{None if k not in df.columns else df[k].to_numpy()[:5]}"
+                                                    f", written {ext[k][:5]}", case)
+        if "weight" not in df.columns or not np.array_equal(
+                df["weight"].to_numpy().astype(np.float32), ref_round(mine)):
+            return ctx.violation("eswc-column", f"{what}: the caller's own column is not the "
+                                                f"4-decimal rounding of what was written", case)
+        g = [c.lstrip() for c in t2.comments]
+        e = [f"source: {te.source or 'Unknown'}", ""] + [c.lstrip() for c in comments]
+        if g != e:
+            return ctx.violation("comments-changed", f"{what}: comments {g[:6]!r}, expected {e[:6]!r}",
+                                 case)
 
 
 def _exec(ctx, case, tmp):
@@ -281,6 +352,8 @@ def _exec(ctx, case, tmp):
             if not np.array_equal(tree.ndata[k], v) or tree.ndata[k].dtype != v.dtype:
                 return ctx.violation("writer-mutates-tree", f"{what}: writing changed the tree's "
                                                             f"own column {k!r}", case)
+    if case.get("eswc"):
+        return _eswc_step(ctx, case, tmp, spec, tree, comments)
 
 
 def execute(ctx, case):
@@ -325,6 +398,7 @@ def run(ctx):
                     "rewrite_same_path": bool(rng.random() < 0.5),
                     "rejected_read_first": bool(rng.random() < 0.3),
                     "resave": bool(rng.random() < 0.4),
+                    "eswc": bool(rng.random() < 0.25),
                     "writes": writes}
             ctx.case(case, nontrivial=rc["n"] >= 2 and rc["shape"] != "single",
                      klass=f"{case['vclass']}/{rc['shape']}")
